@@ -570,6 +570,11 @@ func (x *Exec) resolveModifies(st *State, env *Env, item string, out map[string]
 			name, ft := x.fieldHeapName(p.Elem(), pth)
 			x.heapSorts[name] = ArraySort("Ref", x.sortOf(ft))
 			out[name] = append(out[name], base.T)
+			// sync/atomic box types keep their value in a companion array
+			if n, ok := types.Unalias(ft).(*types.Named); ok && n.Obj().Pkg() != nil && n.Obj().Pkg().Path() == "sync/atomic" {
+				x.heapSorts[name+"$v"] = ArraySort("Ref", "Int")
+				out[name+"$v"] = append(out[name+"$v"], base.T)
+			}
 		}
 	}
 }
